@@ -178,7 +178,17 @@ class World:
                 desc.append("FOREIGN")
                 expect_error = True
                 continue
-            kind = self.rng.choice(("mod", "mod", "pat", "dup"))
+            kind = self.rng.choice(("mod", "mod", "pat", "dup", "dup-fresh"))
+            fresh_here = [x for x in items if isinstance(x, self.api.m.Module) and x is not self.other_mod and x.parent is None]
+            if kind == "dup-fresh" and fresh_here:
+                # a module that appears a second time in the very list that attaches it
+                m = self.rng.choice(fresh_here)
+                items.append(m)
+                desc.append("dup-fresh:" + m.name)
+                self.res.count("iadd_lists_with_repeated_new_module")
+                continue
+            if kind == "dup-fresh":
+                kind = "mod"
             if kind == "mod":
                 name = self.fresh_name()
                 items.append(self.rng.choice(self.types)(name=name))
@@ -261,12 +271,34 @@ class World:
         if not pats:
             return True
         q = self.rng.choice(pats)
+        how = self.rng.choice(("as-is", "as-is", "fn", "gen", "gen-scribble"))
+        if how != "as-is":
+            # the pattern's cells are replaced in bulk first; whatever cell objects it holds afterwards resolve modules
+            # through the owning project all the same
+            Note = self.api.Note
+            if how == "fn":
+                q.set_via_fn(lambda pat, l, t: Note(module=self.rng.randint(0, len(self.slots) + 1)) if (l + t) % 2 else pat.data[l][t])
+            else:
+                def g(pat, new, scribble=(how == "gen-scribble")):
+                    for l in range(pat.lines):
+                        for t in range(pat.tracks):
+                            if scribble and (l + t) % 2 == 0:
+                                new[l][t] = Note(module=self.rng.randint(0, len(self.slots) + 1))   # discouraged but documented
+                            elif self.rng.random() < 0.5:
+                                yield l, t, Note(module=self.rng.randint(0, len(self.slots) + 1))
+                q.set_via_gen(g)
+            self.res.hist("note_mod_after_bulk_edit", how)
         note = q.data[self.rng.randrange(q.lines)][self.rng.randrange(q.tracks)]
         self.res.count("note_mod_checks")
         if self.rng.random() < 0.5:
             k = self.rng.choice([0, 1, len(self.slots), len(self.slots) + 1, len(self.slots) + 5, self.rng.randint(0, len(self.slots))])
             note.module = k
-            got = note.mod
+            try:
+                got = note.mod
+            except Exception as e:
+                self.res.violation(f"C14:note-mod-raises:{type(e).__name__}", f"note.mod on a cell of an attached pattern (cells last replaced {how}) raised {e!r}",
+                                   {"history": self.history[-40:], "k": k, "how": how})
+                return False
             want = None
             if k > 0 and k - 1 < len(self.slots):
                 want = self.p.modules[k - 1]
